@@ -18,7 +18,7 @@ Record obs := {
   o_destroyed : bool        (* filters' OnDestroy ran *)
 }.
 
-Definition is_down (o : out) : bool := match o with ODownHdr _ _ _ | ODownData _ | ODownTrl | ODownReset => true | _ => false end.
+Definition is_down (o : out) : bool := match o with ODownHdr _ _ _ | ODownData _ _ | ODownTrl | ODownReset => true | _ => false end.
 Definition is_up (o : out) : bool := match o with OUpNew _ _ | OUpHdr _ _ _ | OLeak _ | OUpData _ _ | OUpTrl _ | OUpReset _ => true | _ => false end.
 Definition is_filter (o : out) : bool := match o with OFilterRecv _ _ _ | OFilterSend _ _ => true | _ => false end.
 Definition res_delta (o : out) : Z := match o with ORes d => d | _ => 0 end.
@@ -34,7 +34,7 @@ Definition verdict_eqb (a b : verdict) : bool :=
 Definition out_eqb (a b : out) : bool :=
   match a, b with
   | ODownHdr e k c, ODownHdr e' k' c' => Bool.eqb e e' && rkind_eqb k k' && (c =? c')
-  | ODownData e, ODownData e' => Bool.eqb e e'
+  | ODownData e w, ODownData e' w' => Bool.eqb e e' && rkind_eqb w w'
   | ODownTrl, ODownTrl | ODownReset, ODownReset | OChoose, OChoose | ODestroy, ODestroy | OLog, OLog | OPanic, OPanic => true
   | OUpNew k r, OUpNew k' r' => (k =? k')%nat && poolres_eqb r r'
   | OUpHdr k e n, OUpHdr k' e' n' => (k =? k')%nat && Bool.eqb e e' && (n =? n')%nat
